@@ -199,6 +199,7 @@ class WeightedMonitor:
         for row, (e, gs, zs, ks, den) in enumerate(rows):
             g = float(got[row])
             zero_members = [t.name for (t, w) in gs if w == 0.0]
+            single = any(getattr(a.degree, "dtype", None) == np.float32 for a in agg.terms)
             if math.isnan(e) or math.isnan(g):
                 if math.isnan(e) != math.isnan(g):
                     if zero_members and tsukamoto and math.isnan(g):
@@ -211,7 +212,6 @@ class WeightedMonitor:
             mag = max(1.0, abs(e), max((abs(w * z) for (t, w), z in zip(gs, zs) if z is not None), default=0.0))
             # degrees handed over in single precision are combined in single precision (NumPy keeps the array's type when the
             # other operand is a scalar): the result is then only as good as float32 arithmetic
-            single = any(getattr(a.degree, "dtype", None) == np.float32 for a in agg.terms)
             if single:
                 ctx.hit("piece:single-precision degrees (tolerance 1e-5)")
             if not feq(g, e, (1e-5 if single else 1e-12) * mag):
@@ -280,9 +280,11 @@ def gen_set(fl, rnd, batch):
         c = rnd.random()
         if c < 0.12 and fam != "tsukamoto" and np.all((vals == 0.0) | (vals == 1.0)):
             deg = deg.astype(np.int64) if isinstance(deg, np.ndarray) else int(deg)
-        elif c < 0.2 and np.all(vals * 16 == np.floor(vals * 16)):
-            deg = deg.astype(np.float32) if isinstance(deg, np.ndarray) else np.float32(deg)
         acts.append((t, deg))
+    # ... or in single precision, when every degree of the set is exactly representable there (multiples of 1/16): the library
+    # then computes in single precision, which is judged at single precision
+    if acts and rnd.random() < 0.15 and all(np.all(np.atleast_1d(d) * 16 == np.floor(np.atleast_1d(d) * 16)) for _, d in acts):
+        acts = [(t, (d.astype(np.float32) if isinstance(d, np.ndarray) and d.dtype.kind == "f" else np.float32(d) if isinstance(d, float) else d)) for t, d in acts]
     # under a sum-like aggregation Tsukamoto degrees of a repeated term may exceed the height: the monitor counts those as out of domain
     aggregation = rnd.choice(N.SNORMS + [None, None, "Maximum"])
     return engine, specs, acts, aggregation, family
